@@ -363,3 +363,161 @@ Example imul_push_witness :
   push_imm true false (-128) = Some {| ae_opsize := 8; ae_short := true; ae_opc := 106; ae_immsize := 1; ae_field := 128 |} /\
   push_imm true false 4294967295 = None.
 Proof. repeat split; vm_compute; reflexivity. Qed.
+
+(* ---------- shift / rotate / double-shift counts ---------- *)
+Lemma land_mask_mod x k : 0 <= k -> Z.land x (2 ^ k - 1) = x mod 2 ^ k.
+Proof. intros Hk. replace (2 ^ k - 1) with (Z.ones k) by (rewrite Z.ones_equiv; lia). apply Z.land_ones. exact Hk. Qed.
+
+Lemma count_of_byte size imm : size_ok4 size ->
+  Z.land (imm mod 256) (count_mask size) = imm mod (count_mask size + 1).
+Proof.
+  intros Hs. unfold count_mask. destruct (Z.eqb_spec size 8) as [->|_].
+  - change 63 with (2 ^ 6 - 1). rewrite land_mask_mod by lia. change (2 ^ 6 - 1 + 1) with (2 ^ 6).
+    change 256 with (2 ^ 8). apply mod_mod_pow2. lia.
+  - change 31 with (2 ^ 5 - 1). rewrite land_mask_mod by lia. change (2 ^ 5 - 1 + 1) with (2 ^ 5).
+    change 256 with (2 ^ 8). apply mod_mod_pow2. lia.
+Qed.
+
+(* for EVERY int64 immediate the CPU shifts by imm mod 32 (mod 64 for a 64-bit operand): truncating the count to a byte loses
+   nothing the architecture would not mask anyway; the by-1 form is used exactly for count byte 1 without the long form *)
+Theorem rot_imm_exact size longform imm : size_ok4 size ->
+  let e := rot_imm size longform imm in
+  cpu_count size e = imm mod (count_mask size + 1) /\
+  (0 <= imm <= count_mask size -> cpu_count size e = imm) /\
+  (ae_immsize e = 0 <-> imm mod 256 = 1 /\ longform = false) /\
+  ae_opsize e = size /\ (ae_immsize e = 1 -> ae_field e = imm mod 256).
+Proof.
+  intros Hs e. subst e. unfold rot_imm.
+  assert (Hc : cpu_count size (rot_imm size longform imm) = imm mod (count_mask size + 1)).
+  { unfold rot_imm. destruct (Z.eqb_spec (imm mod 256) 1) as [E1|E1]; cbn [andb].
+    - destruct longform; cbn [negb]; unfold cpu_count; cbn [ae_immsize ae_field Z.eqb].
+      + rewrite <- count_of_byte by exact Hs. reflexivity.
+      + rewrite <- count_of_byte by exact Hs. rewrite E1. unfold count_mask. destruct (size =? 8); reflexivity.
+    - unfold cpu_count; cbn [ae_immsize ae_field Z.eqb]. apply count_of_byte. exact Hs. }
+  unfold rot_imm in Hc.
+  split; [exact Hc|]. split.
+  { intros Hr. rewrite Hc. apply Z.mod_small. unfold count_mask in *. destruct (size =? 8); lia. }
+  destruct (Z.eqb_spec (imm mod 256) 1) as [E1|E1]; cbn [andb]; destruct longform; cbn [negb ae_immsize ae_opsize ae_field];
+    (split; [split; [intros H; try discriminate H; try (split; [assumption | reflexivity]) | intros (H1 & H2); try reflexivity; try discriminate H2; try contradiction]|]);
+    (split; [reflexivity|]); intros H; try discriminate H; reflexivity.
+Qed.
+
+Theorem shld_imm_exact right size imm : (size = 2 \/ size = 4 \/ size = 8) ->
+  let e := shld_imm right size imm in
+  cpu_count size e = imm mod (count_mask size + 1) /\ (0 <= imm <= count_mask size -> cpu_count size e = imm) /\
+  ae_immsize e = 1 /\ ae_field e = imm mod 256.
+Proof.
+  intros Hs e. subst e. unfold shld_imm, cpu_count, imm_field. cbn [ae_immsize ae_field Z.eqb].
+  assert (Hs4 : size_ok4 size) by (unfold size_ok4; lia).
+  change (2 ^ (8 * 1)) with 256. rewrite count_of_byte by exact Hs4.
+  split; [reflexivity|]. split; [|split; reflexivity].
+  intros Hr. apply Z.mod_small. unfold count_mask in *. destruct (size =? 8); lia.
+Qed.
+
+Example rot_imm_witness :
+  rot_imm 8 false 1 = {| ae_opsize := 8; ae_short := false; ae_opc := 209; ae_immsize := 0; ae_field := 0 |} /\
+  rot_imm 8 true 1 = {| ae_opsize := 8; ae_short := false; ae_opc := 193; ae_immsize := 1; ae_field := 1 |} /\
+  rot_imm 1 false 257 = {| ae_opsize := 1; ae_short := false; ae_opc := 208; ae_immsize := 0; ae_field := 0 |} /\
+  cpu_count 8 (rot_imm 8 false (-1)) = 63 /\ cpu_count 4 (rot_imm 4 false 33) = 1 /\
+  cpu_count 4 (shld_imm false 4 31) = 31.
+Proof. repeat split; vm_compute; reflexivity. Qed.
+
+(* ---------- the short immediate is used exactly when it can be (completeness of the size choice) ---------- *)
+Theorem arith_mem_imm8_iff op mem_size longform imm e :
+  (mem_size = 2 \/ mem_size = 4 \/ mem_size = 8) -> i64 imm -> arith_mem_imm true op mem_size longform imm = Some e ->
+  let v := if mem_size =? 4 then sign_extend_int32 imm else imm in
+  (ae_immsize e = 1 <-> (- 128 <= v < 128 /\ longform = false)) /\ (ae_opc e = 131 <-> ae_immsize e = 1).
+Proof.
+  intros Hs Hi He v. unfold arith_mem_imm in He. cbn [andb] in He. fold v in He.
+  assert (Hv : i64 v) by (subst v; destruct (mem_size =? 4); [apply sx32_i64 | exact Hi]).
+  rewrite is_int8_spec in He by exact Hv.
+  destruct ((mem_size =? 8) && negb (is_int32 v)); [discriminate|].
+  assert (Hmin : Z.min mem_size 4 <> 1) by (destruct Hs as [-> | [-> | ->]]; discriminate).
+  assert (Hn1 : (mem_size =? 1) = false) by (destruct Hs as [-> | [-> | ->]]; reflexivity).
+  rewrite Hn1 in He.
+  apply (f_equal (fun o => match o with Some x => x | None => e end)) in He; subst e. cbn [ae_immsize ae_opc].
+  destruct (Z.leb_spec (-128) v), (Z.ltb_spec v 128), longform; cbn [andb negb Z.eqb];
+    (split; [split; [intros H'; first [contradiction | split; [lia | reflexivity]] | intros (H1 & H2); first [reflexivity | lia | discriminate H2]]|]);
+    try (rewrite (proj2 (Z.eqb_neq _ _) Hmin));
+    split; intros H'; first [reflexivity | discriminate H' | contradiction].
+Qed.
+
+Theorem push_imm8_iff longform imm e :
+  i64 imm -> push_imm true longform imm = Some e ->
+  (ae_immsize e = 1 <-> (- 128 <= imm < 128 /\ longform = false)) /\ (ae_opc e = 106 <-> ae_immsize e = 1).
+Proof.
+  intros Hi He. unfold push_imm in He. cbn [andb] in He. rewrite is_int8_spec in He by exact Hi.
+  destruct (negb (is_int32 imm)); [discriminate|].
+  apply (f_equal (fun o => match o with Some x => x | None => e end)) in He; subst e. cbn [ae_immsize ae_opc].
+  destruct (Z.leb_spec (-128) imm), (Z.ltb_spec imm 128), longform; cbn [andb negb];
+    (split; [split; [intros H'; first [discriminate H' | split; [lia | reflexivity]] | intros (H1 & H2); first [reflexivity | lia | discriminate H2]]|]);
+    split; intros H'; first [reflexivity | discriminate H'].
+Qed.
+
+(* MOV r64, imm: the 10-byte movabs form is used exactly when no shorter form can load the value (or the long form is asked) *)
+Theorem mov_reg_imm_forms size acc optsize longform imm : size_ok4 size -> i64 imm ->
+  let e := mov_reg_imm size acc optsize longform imm in
+  (ae_immsize e = 8 <-> size = 8 /\ (longform = true \/ (~ (- 2 ^ 31 <= imm < 2 ^ 31) /\ ~ (optsize = true /\ 0 <= imm < 2 ^ 32)))) /\
+  (ae_opc e = 199 <-> size = 8 /\ longform = false /\ - 2 ^ 31 <= imm < 2 ^ 31 /\ ~ (optsize = true /\ 0 <= imm)) /\
+  (size <> 8 -> ae_immsize e = size).
+Proof.
+  intros Hs Hi e. subst e. unfold mov_reg_imm.
+  destruct Hs as [-> | [-> | [-> | ->]]]; cbn [Z.eqb Pos.eqb andb].
+  - cbn [ae_immsize ae_opc]. destruct acc; split; [split; [discriminate | lia] | split; [split; [discriminate | lia] | reflexivity] | split; [discriminate | lia] | split; [split; [discriminate | lia] | reflexivity]].
+  - cbn [ae_immsize ae_opc]. destruct acc; (split; [split; [discriminate | lia]|]); (split; [split; [discriminate | lia] | reflexivity]).
+  - cbn [ae_immsize ae_opc]. destruct acc; (split; [split; [discriminate | lia]|]); (split; [split; [discriminate | lia] | reflexivity]).
+  - rewrite is_uint32_spec, is_int32_spec by exact Hi. unfold i64 in Hi.
+    destruct longform, optsize, (Z.leb_spec 0 imm), (Z.ltb_spec imm (2 ^ 32)), (Z.leb_spec (- 2 ^ 31) imm), (Z.ltb_spec imm (2 ^ 31)), acc;
+      cbn [negb andb ae_immsize ae_opc];
+      (split; [split; [intros H'; first [discriminate H' | split; [reflexivity|]; first [left; reflexivity | right; split; [lia | intros (Hx & Hy); first [discriminate Hx | lia]]]]
+                      | intros (_ & [Hx | (Hx & Hy)]); first [reflexivity | discriminate Hx | lia | (exfalso; apply Hy; split; [reflexivity | lia])]]|]);
+      (split; [split; [intros H'; first [discriminate H' | repeat split; first [reflexivity | lia | (intros (Hx & Hy); first [discriminate Hx | lia])]]
+                      | intros (_ & Hl & Hr1 & Hr2); first [reflexivity | discriminate Hl | lia | (exfalso; apply Hr2; split; [reflexivity | lia])]]
+              | intros Hc; exfalso; apply Hc; reflexivity]).
+Qed.
+
+Theorem imul_imm8_iff mem size longform imm e :
+  (size = 2 \/ size = 4 \/ size = 8) -> i64 imm -> imul_imm true mem size longform imm = Some e ->
+  let v := if mem && (size =? 4) then sign_extend_int32 imm else imm in
+  (ae_immsize e = 1 <-> (- 128 <= v < 128 /\ longform = false)) /\ (ae_opc e = 107 <-> ae_immsize e = 1).
+Proof.
+  intros Hs Hi He v. unfold imul_imm in He. fold v in He.
+  assert (Hv : i64 v) by (subst v; destruct (mem && (size =? 4)); [apply sx32_i64 | exact Hi]).
+  rewrite is_int8_spec in He by exact Hv.
+  destruct (true && (size =? 8) && negb (is_int32 imm)); [discriminate|].
+  assert (Hmin : (if size =? 2 then 2 else 4) <> 1) by (destruct Hs as [-> | [-> | ->]]; discriminate).
+  apply (f_equal (fun o => match o with Some x => x | None => e end)) in He; subst e. cbn [ae_immsize ae_opc].
+  destruct (Z.leb_spec (-128) v), (Z.ltb_spec v 128), longform; cbn [andb negb];
+    (split; [split; [intros H'; first [contradiction | split; [lia | reflexivity]] | intros (H1 & H2); first [reflexivity | lia | discriminate H2]]|]);
+    split; intros H'; first [reflexivity | discriminate H' | contradiction].
+Qed.
+
+(* (Reg, Imm) with a register other than the accumulator: same statement as the memory form *)
+Theorem arith_reg_imm8_iff op size optsize longform imm e :
+  (size = 2 \/ size = 4 \/ size = 8) -> i64 imm -> arith_reg_imm op size false optsize longform imm = Some e ->
+  let v := if size =? 4 then sign_extend_int32 imm else imm in
+  (ae_immsize e = 1 <-> (- 128 <= v < 128 /\ longform = false)) /\ ae_short e = false /\ (ae_opc e = 131 <-> ae_immsize e = 1).
+Proof.
+  intros Hs Hi He v. unfold arith_reg_imm in He.
+  assert (Hn1 : (size =? 1) = false) by (destruct Hs as [-> | [-> | ->]]; reflexivity).
+  rewrite Hn1 in He. cbn [andb] in He.
+  set (pre := if size =? 2 then Some (imm, 2) else if size =? 4 then Some (sign_extend_int32 imm, 4) else
+              if negb (is_int32 imm) then (if (op =? 4) && is_uint32 imm then Some (imm, 4) else None)
+              else if (op =? 4) && is_uint32 imm && optsize then Some (imm, 4) else Some (imm, 8)) in He.
+  assert (Hpre : forall w sz, pre = Some (w, sz) -> w = v /\ (sz = 2 \/ sz = 4 \/ sz = 8)).
+  { intros w sz Hp. subst pre v. destruct Hs as [-> | [-> | ->]]; cbn [Z.eqb Pos.eqb] in Hp |- *.
+    - injection Hp as <- <-. split; [reflexivity | lia].
+    - injection Hp as <- <-. split; [reflexivity | lia].
+    - destruct (negb (is_int32 imm)), ((op =? 4) && is_uint32 imm), optsize; cbn [andb] in Hp; try discriminate Hp;
+        injection Hp as <- <-; split; try reflexivity; lia. }
+  destruct pre as [[w sz]|] eqn:Ep; [|discriminate].
+  destruct (Hpre w sz eq_refl) as (-> & Hsz).
+  assert (Hv : i64 v) by (subst v; destruct (size =? 4); [apply sx32_i64 | exact Hi]).
+  rewrite is_int8_spec in He by exact Hv.
+  assert (Hmin : Z.min sz 4 <> 1) by (destruct Hsz as [-> | [-> | ->]]; discriminate).
+  apply (f_equal (fun o => match o with Some x => x | None => e end)) in He; subst e. cbn [ae_immsize ae_opc ae_short].
+  destruct (Z.leb_spec (-128) v), (Z.ltb_spec v 128), longform; cbn [andb negb Z.eqb];
+    try (rewrite (proj2 (Z.eqb_neq _ _) Hmin));
+    (split; [split; [intros H'; first [contradiction | split; [lia | reflexivity]] | intros (H1 & H2); first [reflexivity | lia | discriminate H2]]|]);
+    (split; [reflexivity|]); split; intros H'; first [reflexivity | discriminate H' | contradiction].
+Qed.
